@@ -1,9 +1,14 @@
 import MetapypeModel.Model.Normalize
 import MetapypeModel.Lemmas.Words
+import MetapypeModel.Lemmas.XNormLemmas
+import MetapypeModel.Gen.Facts
 /-
-  C20 — whitespace normalisation is idempotent and structure-preserving (text part).
-  For every string (list of Unicode scalar values), by induction on the character list.
-  The XML part (XSLT) is tied to the code by the correspondence check only; see DESIGN.md.
+  C20 — whitespace normalisation is idempotent and structure-preserving.
+  Text part: for every string (list of Unicode scalar values), by induction on the character list.
+  XML part: for every XML node tree, about the XSLT 1.0 meaning of the embedded stylesheet (Model/XNorm.lean; the
+  protected-element list is regenerated from the stylesheet text, `Gen.xsltProtected`).  libxslt itself, the
+  `indent="yes"` serialisation and the re-parse are not modelled; the correspondence check compares the model with
+  libxslt's result tree for the stylesheet extracted from the source, and the oracle judges the function's output.
 -/
 namespace Metapype
 
@@ -199,18 +204,6 @@ theorem normWords_spec (s : List Char) : ∀ w ∈ normWords s,
           · exact List.mem_cons_of_mem _ (ih q (by rw [hs]; exact List.mem_cons_of_mem _ hq) c hc)
   exact replNbsp_no_nbsp s (hall _ p hp nbsp h1)
 
-theorem joinSp_mem (c : Char) : ∀ (ws : List (List Char)), c ∈ joinSp ws → c = ' ' ∨ ∃ w ∈ ws, c ∈ w
-  | [], h => by simp [joinSp] at h
-  | [w], h => by simp only [joinSp] at h; exact Or.inr ⟨w, List.mem_cons_self, h⟩
-  | w :: v :: ws, h => by
-    simp only [joinSp, List.mem_append, List.mem_cons] at h
-    rcases h with h | h | h
-    · exact Or.inr ⟨w, List.mem_cons_self, h⟩
-    · exact Or.inl h
-    · rcases joinSp_mem c (v :: ws) h with h | ⟨x, hx, hc⟩
-      · exact Or.inl h
-      · exact Or.inr ⟨x, List.mem_cons_of_mem _ hx, hc⟩
-
 /-- normalising twice changes nothing more -/
 theorem C20_idem (s : List Char) : normalizeText (normalizeText s) = normalizeText s := by
   unfold normalizeText
@@ -376,5 +369,52 @@ example : wsWords "  alpha\tbeta \u00a0 gamma\n".toList = ["alpha".toList, "beta
 
 /-- kernel-evaluated instances (tests, not the unbounded claim) -/
 example : normalizeText "  a  b \t c\n ".toList = "a b c".toList := by decide
+
+/-! ### XML normalisation (the stylesheet's meaning on the node tree) -/
+
+/-- the same elements, attribute names and order -/
+theorem C20_xml_structure (prot : List String) (doc : XD) : skel (xmlNormalize prot doc) = skel doc := by
+  unfold xmlNormalize; rw [skel_normX, skel_replX]
+
+/-- every attribute value is space-normalised (after the non-breaking-space replacement), wherever it sits -/
+theorem C20_xml_attr_values (prot : List String) (ip : Bool) (n : String) (a : List (String × List Char)) (ks : List XD) :
+    ∃ ks', normX prot ip (replX (.elem n a ks)) = .elem n (a.map (fun kv => (kv.1, normSpace (replNbsp kv.2)))) ks' := by
+  refine ⟨normXL prot (ip || prot.contains n) (replXL ks), ?_⟩
+  simp only [replX, normX, List.map_map]; rfl
+
+/-- text outside protected elements is space-normalised; a text that normalises to nothing disappears -/
+theorem C20_xml_text_unprotected (prot : List String) (s : List Char) (ks : List XD) :
+    normXL prot false (.text s :: ks) =
+      if normSpace s = [] then normXL prot false ks else .text (normSpace s) :: normXL prot false ks := by
+  simp [normXL]
+
+/-- below a protected element every text node is preserved exactly (only attribute values are normalised) -/
+theorem C20_xml_protected (prot : List String) (t : XD) : normX prot true t = attrsOnly t := normX_protected prot t
+
+/-- an element of the regenerated protected list protects its whole content -/
+theorem C20_xml_protected_elem (n : String) (hn : n ∈ Gen.xsltProtected) (a : List (String × List Char)) (ks : List XD) (ip : Bool) :
+    normX Gen.xsltProtected ip (.elem n a ks) = .elem n (a.map (fun kv => (kv.1, normSpace kv.2))) (attrsOnlyL ks) := by
+  have : Gen.xsltProtected.contains n = true := by simpa using hn
+  simp only [normX, this, Bool.or_true]
+  rw [normXL_protected]
+
+/-- `normalize-space` is idempotent and keeps the words -/
+theorem C20_normSpace_idem (s : List Char) : normSpace (normSpace s) = normSpace s := normSpace_idem s
+theorem C20_normSpace_words (s : List Char) : xW [] (normSpace s) = xW [] s := by
+  unfold normSpace; exact xW_joinSp _ (xW_clean s [] (fun _ h => by cases h))
+
+/-- normalising twice changes nothing more -/
+theorem C20_xml_idem (prot : List String) (doc : XD) : xmlNormalize prot (xmlNormalize prot doc) = xmlNormalize prot doc := by
+  unfold xmlNormalize
+  rw [replX_fix _ (NoNb_normX prot false _ (NoNb_replX doc)), normX_idem]
+
+/-- the result contains no non-breaking space -/
+theorem C20_xml_no_nbsp (prot : List String) (doc : XD) : NoNb (xmlNormalize prot doc) :=
+  NoNb_normX prot false _ (NoNb_replX doc)
+
+/-- a kernel-evaluated instance: `para` protects, `title` does not -/
+example : xmlNormalize Gen.xsltProtected
+    (.elem "d" [("k", "  a   b ".toList)] [.text " \n ".toList, .elem "title" [] [.text "  x \u00a0 y ".toList], .elem "para" [] [.text "  x   y ".toList]]) =
+    .elem "d" [("k", "a b".toList)] [.elem "title" [] [.text "x y".toList], .elem "para" [] [.text "  x   y ".toList]] := by rfl
 
 end Metapype
